@@ -45,6 +45,16 @@ CHECKS = {
          "Generated cache models (versions 1-4, 0..6 credentials, names, keys 0..64 bytes, signed 32-bit times, flags, addresses, authdata, X-CACHECONF entries, v4 header with 0..2 fields incl. unknown tags) are rendered by an independent writer; every parsed field (flags as the 32-bit value), GetEntry/Contains/GetEntries/GetClient* and a client built with NewFromCCache (GetCachedTicket per SPN; the TGS-REQ it sends carries the cache's TGT and an authenticator under the cache's session key) are compared with the model.",
          "Trusts ref/ccache (self-tested: hand-assembled v1-v4 files, byte-identical rewrite of the MIT-written sample, JDK FileCredentialsCache when present). Observe-only: version-1 name types, X-CACHECONF near-miss realms, caches without a TGT.",
          "5.C15"),
+ "C17": ("differential runtime monitor: MIC/Wrap tokens vs independent RFC 4121 builder/decoder/verifier; exhaustive bit flips judged by the reference",
+         "exploration",
+         "gokrb5-built tokens are compared octet for octet with reference-built tokens (etype x payload length 0..300 x flags 0..7 x six sequence numbers x four usages; stride-sampled in quick, full in thorough); Unmarshal/Verify round trips on both sides' tokens; on a 1/16 sample every single-bit flip and every truncation of the marshalled token, direction mismatches, wrong TOK_ID/filler values and each field changed between checksum computation and Verify, with the expected outcome computed by the reference from the mutated bytes.",
+         "Trusts ref/gss over ref/kcrypto (self-test incl. a captured acceptor Wrap token not produced by gokrb5). Observe-only: RRC bits (rotation is not implemented and not in the statement), EC left unset by the caller, the sealed bit on MIC tokens.",
+         "5.C17"),
+ "C19": ("differential runtime monitor: PAC processing vs independent MS-PAC 2.8 verifier; exhaustive bit flips and buffer surgery judged by the reference; known-contents attribute comparison",
+         "exploration",
+         "The AD-issued sample PAC is re-signed by the reference under every signature type with seeded keys; every single-bit flip (exhaustive for selected variants in quick, all in thorough), truncations, removal/duplication/every permutation of buffers (re-signed), RODC identifier, wrong keys, keys of other etypes and changed declared types are presented to PACType.ProcessPACInfoBuffers; Ticket.GetPACType and service.VerifyAPREQ are driven with reference-minted tickets around the PAC. Accept/reject must equal the reference verdict on the same bytes and accepted PACs must expose the sample's known attributes.",
+         "Trusts ref/pac (verifies the AD-issued sample under its real key at every run). Attribute faithfulness is against known contents of one sample, not an independent NDR decoder. Duplicated signature buffers judged for soundness only.",
+         "5.C19"),
 }
 
 NOT_YET = "check not built yet in this revision of /verif (construction in progress, see DESIGN.md section 9)"
